@@ -13,6 +13,11 @@ class CmpGuard:
     self.dead = dead
     self.line = body.term(bb).get('l')
 
+  def slice(self):
+    if getattr(self, '_slice', None) is None:
+      self._slice = self.body.slice_of([self.body.term(self.bb)['d']])
+    return self._slice
+
   def forms(self):
     """equivalent (op, a, b, pol) forms of a comparison atom"""
     if not (isinstance(self.atom, tuple) and self.atom and self.atom[0] == 'cmp') or self.pol is None:
